@@ -391,19 +391,23 @@ func generateWrappers(
 			converted := make([]reflect.Value, len(out))
 			copy(converted, out)
 			converted[errorIndex] = out[errorIndex].Convert(errorType)
-			outMap(v, converted)
 			if err != nil {
 				if debugEnabled() {
 					debugf("Zeroing for %s", fm)
 					dumpValueArray(v, "BEFORE", downVmap)
 				}
+				// zero what the skipped static injectors would have provided, then store
+				// this injector's own results: its error must stay visible even when a
+				// later (skipped) fallible static injector would have provided error too
 				zero(v)
+				outMap(v, converted)
 				if debugEnabled() {
 					dumpValueArray(v, "AFTER", downVmap)
 					debugf("RETURNING %v", err)
 				}
 				return err.(error)
 			}
+			outMap(v, converted)
 			if debugEnabled() {
 				debugf("NOT zeroing for %s", fm)
 				debugf("RETURNING nil")
